@@ -623,3 +623,136 @@ Lemma tracker_new_inv : forall lo hi e c s,
 Proof.
   intros. unfold TInv, wf_params, tracker_new, num. cbn. repeat split; lia.
 Qed.
+
+(* ---- what a commit writes and what a rotation deletes ------------------------------------------------ *)
+Definition count_part (s : list record) (p : N) : nat :=
+  length (filter (fun r => fst (fst r) =? p) s).
+
+Lemma count_part_delete_same : forall s d, count_part (delete_partition s d) d = 0%nat.
+Proof.
+  intros s d. unfold count_part, delete_partition. induction s as [|r s IH]; [reflexivity|].
+  cbn [filter]. destruct (fst (fst r) =? d) eqn:E; cbn [negb filter]; [exact IH|]. rewrite E. exact IH.
+Qed.
+Lemma count_part_delete_other : forall s d p, p <> d ->
+  count_part (delete_partition s d) p = count_part s p.
+Proof.
+  intros s d p Hp. unfold count_part, delete_partition. induction s as [|r s IH]; [reflexivity|].
+  cbn [filter]. destruct (fst (fst r) =? d) eqn:E; cbn [negb filter].
+  - b2p. destruct (fst (fst r) =? p) eqn:E2; [b2p; congruence|]. exact IH.
+  - destruct (fst (fst r) =? p); cbn [length]; [f_equal|]; exact IH.
+Qed.
+
+(* the write loop only creates or replaces entries keyed by a recorded nullification of this
+   transaction, in the partition the tracker assigns to its expiry epoch; every other entry is kept *)
+Lemma write_nulls_only_keys : forall t ok ns s s',
+  write_nulls t s ok ns = Some s' ->
+  (forall r, In r s' ->
+     In r s \/ exists n, In n ns /\ recorded ok n = true
+                         /\ partition_for t (n_expiry n) = PSome (fst (fst r)) /\ snd (fst r) = n_hash n)
+  /\ (forall r, In r s ->
+     In r s' \/ exists n, In n ns /\ recorded ok n = true
+                         /\ partition_for t (n_expiry n) = PSome (fst (fst r)) /\ snd (fst r) = n_hash n).
+Proof.
+  induction ns as [|n ns IH]; intros s s' H; cbn [write_nulls] in H.
+  - injection H as <-. split; intros r Hr; left; exact Hr.
+  - destruct (recorded ok n) eqn:Er.
+    + destruct (partition_for t (n_expiry n)) as [p| |] eqn:Ep; try discriminate.
+      destruct (IH _ _ H) as (A & B). split.
+      * intros r Hr. destruct (A r Hr) as [Hw|(m & Hm & R1 & R2 & R3)].
+        -- unfold write in Hw. destruct Hw as [<-|Hw].
+           ++ right. exists n. cbn. split; [left; reflexivity|]. repeat split; auto.
+           ++ apply filter_In in Hw. left. exact (proj1 Hw).
+        -- right. exists m. split; [right; exact Hm|]. repeat split; auto.
+      * intros r Hr.
+        destruct (key_eqb p (n_hash n) r) eqn:Ek.
+        -- right. exists n. unfold key_eqb in Ek. apply andb_true_iff in Ek. destruct Ek as [K1 K2]. b2p.
+           split; [left; reflexivity|]. split; [exact Er|]. split; [rewrite K1; exact Ep|exact K2].
+        -- assert (Hw : In r (write s p (n_hash n) (if ok then CommittedSuccess else CommittedFailure))).
+           { unfold write. right. apply filter_In. split; [exact Hr|]. rewrite Ek. reflexivity. }
+           destruct (B r Hw) as [Hs'|(m & Hm & R1 & R2 & R3)]; [left; exact Hs'|].
+           right. exists m. split; [right; exact Hm|]. repeat split; auto.
+    + destruct (IH _ _ H) as (A & B). split.
+      * intros r Hr. destruct (A r Hr) as [Hw|(m & Hm & R)]; [left; exact Hw|].
+        right. exists m. split; [right; exact Hm|exact R].
+      * intros r Hr. destruct (B r Hr) as [Hw|(m & Hm & R)]; [left; exact Hw|].
+        right. exists m. split; [right; exact Hm|exact R].
+Qed.
+
+(* update_transaction_tracker: after the writes, either nothing else changes, or the tracker advances by
+   one partition and EXACTLY the recycled partition (the old start partition) is emptied: every record
+   of every other partition is kept, the recycled partition has no record left *)
+Theorem update_tracker_deletes : forall st ne ns ok st',
+  update_tracker st ne ns ok = Some st' ->
+  exists s1, write_nulls (trk st) (store st) ok ns = Some s1 /\
+    ((ne < start_epoch (trk st) + epp (trk st) /\ trk st' = trk st /\ store st' = s1)
+     \/ (start_epoch (trk st) + epp (trk st) <= ne
+         /\ advance (trk st) = Some (trk st', start_partition (trk st))
+         /\ (forall r, In r (store st') <-> In r s1 /\ fst (fst r) <> start_partition (trk st))
+         /\ count_part (store st') (start_partition (trk st)) = 0%nat
+         /\ (forall p, p <> start_partition (trk st) -> count_part (store st') p = count_part s1 p))).
+Proof.
+  intros st ne ns ok st' H. unfold update_tracker in H.
+  destruct (write_nulls (trk st) (store st) ok ns) as [s1|] eqn:Ew; [|discriminate].
+  exists s1. split; [reflexivity|].
+  destruct (U64_MAX <? start_epoch (trk st) + epp (trk st)); [discriminate|].
+  destruct (start_epoch (trk st) + epp (trk st) <=? ne) eqn:E; b2p.
+  - destruct (advance (trk st)) as [[t' d]|] eqn:Ea; [|discriminate]. injection H as <-.
+    pose proof (advance_params _ _ _ Ea) as (_ & _ & _ & Hd & _). subst d. right. cbn [trk store].
+    split; [exact E|]. split; [reflexivity|]. split; [|split].
+    + intros r. unfold delete_partition. rewrite filter_In. split.
+      * intros (Hr & Hn). split; [exact Hr|]. apply negb_true_iff in Hn. b2p. exact Hn.
+      * intros (Hr & Hn). split; [exact Hr|]. apply negb_true_iff. apply N.eqb_neq. exact Hn.
+    + apply count_part_delete_same.
+    + intros p Hp. apply count_part_delete_other. exact Hp.
+  - injection H as <-. left. cbn [trk store]. auto.
+Qed.
+
+(* the code never writes the Cancelled status: from a store without it, IntentHashPreviouslyCancelled
+   is unreachable *)
+Definition NoCancelled (s : list record) : Prop := forall r, In r s -> snd r <> Cancelled.
+
+Lemma write_nulls_no_cancelled : forall t ok ns s s',
+  write_nulls t s ok ns = Some s' -> NoCancelled s -> NoCancelled s'.
+Proof.
+  induction ns as [|n ns IH]; intros s s' H Hn; cbn [write_nulls] in H.
+  - injection H as <-. exact Hn.
+  - destruct (recorded ok n).
+    + destruct (partition_for t (n_expiry n)) as [p| |]; try discriminate.
+      eapply IH; [exact H|]. intros r [<-|Hr]; [cbn; destruct ok; discriminate|].
+      apply filter_In in Hr. apply Hn. exact (proj1 Hr).
+    + eapply IH; eauto.
+Qed.
+
+Theorem no_cancelled_step : forall st x,
+  NoCancelled (store st) ->
+  NoCancelled (store (snd (do_step st x)))
+  /\ forall k h, fst (do_step st x) <> RReject (PrevCancelled k h).
+Proof.
+  intros st x Hn.
+  assert (Hup : forall ne ns ok st', update_tracker st ne ns ok = Some st' -> NoCancelled (store st')).
+  { intros ne ns ok st' H. destruct (update_tracker_deletes _ _ _ _ _ H) as (s1 & Ew & [(_ & _ & ->)|(_ & _ & Hin & _)]).
+    - eapply write_nulls_no_cancelled; eauto.
+    - intros r Hr. apply Hin in Hr. eapply write_nulls_no_cancelled; eauto. exact (proj1 Hr). }
+  assert (Hv : forall ns k h, validate_nulls st ns <> ChkReject (PrevCancelled k h)).
+  { induction ns as [|n ns IH]; intros k h; cbn [validate_nulls]; [discriminate|].
+    unfold validate_intent_hash.
+    destruct (partition_for (trk st) (n_expiry n)) as [p| |]; try discriminate.
+    destruct (lookup (store st) p (n_hash n)) as [y|] eqn:El; [|apply IH].
+    unfold lookup in El. destruct (find (key_eqb p (n_hash n)) (store st)) as [r|] eqn:Ef; [|discriminate].
+    injection El as <-. apply find_some in Ef. specialize (Hn r (proj1 Ef)).
+    destruct (snd r); try discriminate. congruence. }
+  destruct x as [sub oc| |]; cbn [do_step].
+  - destruct (validate_epoch_range (cur st) (s_start sub) (s_end sub)) as [r|] eqn:Ee.
+    { cbn [fst snd]. split; [exact Hn|]. intros k h. unfold validate_epoch_range in Ee.
+      destruct (cur st <? s_start sub); [injection Ee as <-; discriminate|].
+      destruct (s_end sub <=? cur st); [injection Ee as <-; discriminate|discriminate]. }
+    destruct (validate_nulls st (s_nulls sub)) as [|r|] eqn:Ev.
+    + destruct oc; cbn [fst snd]; try (split; [exact Hn|intros ? ?; discriminate]).
+      * destruct (update_tracker st (cur st) (s_nulls sub) true) eqn:Eu; cbn [fst snd]; [split; [eauto|intros ? ?; discriminate]|split; [exact Hn|intros ? ?; discriminate]].
+      * destruct (update_tracker st (cur st) (s_nulls sub) false) eqn:Eu; cbn [fst snd]; [split; [eauto|intros ? ?; discriminate]|split; [exact Hn|intros ? ?; discriminate]].
+    + cbn [fst snd]. split; [exact Hn|]. intros k h Heq. injection Heq as ->. exact (Hv _ k h Ev).
+    + cbn [fst snd]. split; [exact Hn|intros ? ?; discriminate].
+  - destruct (U64_MAX <=? cur st); cbn [fst snd]; [split; [exact Hn|intros ? ?; discriminate]|].
+    destruct (update_tracker st (cur st + 1) [] true) eqn:Eu; cbn [fst snd]; [split; [eauto|intros ? ?; discriminate]|split; [exact Hn|intros ? ?; discriminate]].
+  - destruct (update_tracker st (cur st) [] true) eqn:Eu; cbn [fst snd]; [split; [eauto|intros ? ?; discriminate]|split; [exact Hn|intros ? ?; discriminate]].
+Qed.
